@@ -19,6 +19,7 @@ mod props {
     pub mod c17;
     pub mod c18;
     pub mod c19;
+    pub mod c04;
 }
 
 use common::{CaseOut, Tier};
@@ -38,6 +39,7 @@ fn prop_header(prop: &str) -> &'static str {
         "C17" => props::c17::HEADER,
         "C18" => props::c18::HEADER,
         "C19" => props::c19::HEADER,
+        "C04" => props::c04::HEADER,
         _ => panic!("unknown property {prop}"),
     }
 }
@@ -53,6 +55,7 @@ fn prop_gen(prop: &str, rng: &mut Rng, idx: usize, tier: Tier) -> CaseOut {
         "C17" => props::c17::generate(rng, idx, tier),
         "C18" => props::c18::generate(rng, idx, tier),
         "C19" => props::c19::generate(rng, idx, tier),
+        "C04" => props::c04::generate(rng, idx, tier),
         "C15" => props::scope::generate_c15(rng, idx, tier),
         "C16" => props::scope::generate_c16(rng, idx, tier),
         "C01" => props::drift::generate(rng, idx, tier, false),
